@@ -4,7 +4,7 @@
 From Coq Require Import List NArith Bool Arith Sorted.
 From Coq Require Import Strings.Byte.
 Require Import BS.Bytes BS.Common BS.Api BS.Layout BS.Format BS.FormatFacts BS.Spec BS.SpecStep BS.Sections.
-Require Import BS.FS BS.FSFacts BS.Meta BS.MetaFacts BS.Header BS.Reader BS.ReaderFacts BS.Index BS.Data BS.DataFacts BS.Seek BS.SeekFacts BS.Series BS.SeriesFacts BS.ReadAllFacts BS.PagingFacts.
+Require Import BS.FS BS.FSFacts BS.Meta BS.MetaFacts BS.Header BS.Reader BS.ReaderFacts BS.Index BS.Data BS.DataFacts BS.Seek BS.SeekFacts BS.Series BS.SeriesFacts BS.ReadAllFacts BS.PagingFacts BS.PagingModelFacts.
 Import ListNotations.
 
 (* (I refines S) the first n >= 1 lines of a range are exactly the first min(n, k) of the k lines a full read
@@ -22,3 +22,16 @@ Theorem C13_paging : forall n (l:list (N * list byte)), n >= 1 -> StronglySorted
   concat (pages (S (length l)) n l Unb) = l.
 Proof. exact paging_visits_all. Qed.
 Print Assumptions C13_paging.
+
+(* (I refines S) the same on the model: the client loop mpages calls ByteSeries::read_first_n(n, lo..) starting unbounded and
+   continuing with Excluded(last timestamp seen) until a page comes back empty (or a range error says nothing is left): for
+   every series in its invariant and every page size n >= 1 the pages are those of Layer S, and their concatenation is the
+   whole series - every line exactly once, no call panics *)
+Theorem C13_paging_on_the_model : forall fs sr p hdr ihdr l n, RepH fs sr p hdr ihdr l -> (1 <= n)%N ->
+  exists pgs, mpages (S (length l)) n sr fs Unb = Some pgs /\ concat pgs = l.
+Proof. exact model_paging. Qed.
+Print Assumptions C13_paging_on_the_model.
+Theorem C13_model_pages_are_spec_pages : forall fs sr p hdr ihdr l n, RepH fs sr p hdr ihdr l -> (1 <= n)%N ->
+  forall fuel lo, mpages fuel n sr fs lo = Some (pages fuel (N.to_nat n) l lo).
+Proof. exact mpages_are_pages. Qed.
+Print Assumptions C13_model_pages_are_spec_pages.
